@@ -153,7 +153,8 @@ class InProcPool:
 
     def imap_unordered(self, fn, iterable, chunksize=1):
         res = [self._call(fn, it) for it in iterable]
-        order = [i for i in (self.order or []) if i < len(res)]
+        # without an explicit order: completion in REVERSE submission order
+        order = [i for i in (self.order if self.order is not None else range(len(res) - 1, -1, -1)) if i < len(res)]
         order += [i for i in range(len(res)) if i not in order]
         return iter([res[i] for i in order])
 
